@@ -7,7 +7,8 @@ const char *HARNESS_ID = "C07";
 std::vector<ModeInfo> harness_modes()
 {
 	return {{"hist", 0, "histories of add/put_idx/insert_idx/del_idx/shrink/sort/bsearch/get_idx with boundary-biased and SIZE_MAX-adjacent arguments vs a vector model"},
-	        {"small", 6 * 6 * 6 * 6 * 6 * 6, "all sequences of 6 operations drawn from 6 kinds on arrays of initial capacity 0..2 (arguments derived from the index)"}};
+	        {"small", 6 * 6 * 6 * 6 * 6 * 6, "all sequences of 6 operations drawn from 6 kinds on arrays of initial capacity 0..2 (arguments derived from the index)"},
+	        {"al", 0, "the same histories on a bare array_list (arraylist.h) with a counting free function vs a vector model"}};
 }
 
 namespace {
@@ -323,11 +324,310 @@ static size_t huge_idx(Choices &c)
 	default: return SIZE_MAX - (size_t)c.range(0, 100000);
 	}
 }
+// ---- arraylist.h used directly: elements are opaque tokens, the free function counts
+static std::map<long, int> g_al_freed;
+static void al_free(void *p) { g_al_freed[(long)((intptr_t)p >> 4)]++; }
+static int al_cmp(const void *a, const void *b)
+{
+	intptr_t x = (intptr_t) * (void *const *)a, y = (intptr_t) * (void *const *)b;
+	return x < y ? -1 : x > y ? 1 : 0;
+}
+struct AL {
+	Ctx &ctx;
+	array_list *al;
+	std::vector<long> m; // 0 = NULL slot
+	std::map<long, int> want_freed;
+	long next_id = 1;
+	std::string trace;
+	uint64_t h = 0;
+	bool sorted = false, f_gap = false, f_refused = false, f_overwrite = false, f_del = false, f_grew = false, f_sorted = false;
+	AL(Ctx &c, int cap, bool dflt) : ctx(c)
+	{
+		g_al_freed.clear();
+		al = dflt ? array_list_new(al_free) : array_list_new2(al_free, cap);
+		if (!al)
+			ctx.fail("create", "array_list_new2(" + str(cap) + ") returned NULL");
+		log(dflt ? "array_list_new" : "array_list_new2 " + str(cap));
+	}
+	void log(const std::string &s)
+	{
+		h = hash_str(s, h);
+		if (ctx.verbose)
+			trace += s + "\n";
+	}
+	static void *tok(long id) { return (void *)(intptr_t)(id << 4); }
+	long fresh(Choices &c) { return c.coin(10) ? 0 : next_id++; }
+	void check(const char *op)
+	{
+		if (array_list_length(al) != m.size())
+			ctx.fail("length", std::string(op) + ": array_list_length " + str(array_list_length(al)) + ", model " + str(m.size()));
+		if (al->length > al->size)
+			ctx.fail("bounds", std::string(op) + ": length " + str(al->length) + " exceeds capacity " + str(al->size));
+		for (size_t i = 0; i < m.size(); i++)
+			if (array_list_get_idx(al, i) != tok(m[i]))
+				ctx.fail("content", std::string(op) + ": slot " + str(i) + " holds token " + str((long)((intptr_t)array_list_get_idx(al, i) >> 4)) + ", model " + str(m[i]));
+		for (size_t i = m.size(); i < m.size() + 3; i++)
+			if (array_list_get_idx(al, i) != nullptr)
+				ctx.fail("past-end", std::string(op) + ": read past the end at " + str(i) + " is not NULL");
+		if (array_list_get_idx(al, SIZE_MAX) != nullptr)
+			ctx.fail("past-end", std::string(op) + ": read at SIZE_MAX is not NULL");
+		if (g_al_freed != want_freed)
+		{
+			std::string d;
+			for (auto &kv : g_al_freed)
+				if (!want_freed.count(kv.first) || want_freed[kv.first] != kv.second)
+					d += " token " + str(kv.first) + " freed " + str(kv.second) + "x";
+			for (auto &kv : want_freed)
+				if (!g_al_freed.count(kv.first))
+					d += " token " + str(kv.first) + " not freed";
+			ctx.fail("free-callback", std::string(op) + ": free function calls differ from the model:" + d);
+		}
+	}
+	void released(long id)
+	{
+		if (id)
+			want_freed[id]++;
+	}
+	bool unalloc(size_t idx) { return idx >= ((size_t)1 << 40); } // cannot be allocated here: must be refused
+	void put(size_t idx, long x)
+	{
+		size_t cap = al->size;
+		int r = array_list_put_idx(al, idx, tok(x));
+		log("put_idx " + str(idx) + " <- " + str(x));
+		if (unalloc(idx))
+		{
+			if (r != -1)
+				ctx.fail("not-refused", "array_list_put_idx(" + str(idx) + ") returned " + str(r));
+			f_refused = true;
+			check("put_idx(refused)");
+			return;
+		}
+		if (r != 0)
+			ctx.fail("retval", "array_list_put_idx(" + str(idx) + ") returned " + str(r));
+		if (idx < m.size())
+		{
+			released(m[idx]);
+			if (m[idx])
+				f_overwrite = true;
+		}
+		else
+		{
+			if (idx > m.size())
+				f_gap = true;
+			m.resize(idx + 1, 0);
+		}
+		m[idx] = x;
+		sorted = false;
+		if (al->size != cap)
+			f_grew = true;
+		check("put_idx");
+	}
+	void add(long x)
+	{
+		size_t cap = al->size;
+		int r = array_list_add(al, tok(x));
+		log("add " + str(x));
+		if (r != 0)
+			ctx.fail("retval", "array_list_add returned " + str(r));
+		m.push_back(x);
+		sorted = false;
+		if (al->size != cap)
+			f_grew = true;
+		check("add");
+	}
+	void insert(size_t idx, long x)
+	{
+		size_t cap = al->size;
+		int r = array_list_insert_idx(al, idx, tok(x));
+		log("insert_idx " + str(idx) + " <- " + str(x));
+		if (unalloc(idx))
+		{
+			if (r != -1)
+				ctx.fail("not-refused", "array_list_insert_idx(" + str(idx) + ") returned " + str(r));
+			f_refused = true;
+			check("insert_idx(refused)");
+			return;
+		}
+		if (r != 0)
+			ctx.fail("retval", "array_list_insert_idx(" + str(idx) + ") returned " + str(r));
+		if (idx >= m.size())
+		{
+			if (idx > m.size())
+				f_gap = true;
+			m.resize(idx + 1, 0);
+			m[idx] = x;
+		}
+		else
+			m.insert(m.begin() + (long)idx, x);
+		sorted = false;
+		if (al->size != cap)
+			f_grew = true;
+		check("insert_idx");
+	}
+	void del(size_t idx, size_t count)
+	{
+		int r = array_list_del_idx(al, idx, count);
+		log("del_idx " + str(idx) + " x" + str(count));
+		bool ok = idx < m.size() && count <= m.size() - idx;
+		if (!ok)
+		{
+			if (r != -1)
+				ctx.fail("not-refused", "array_list_del_idx(" + str(idx) + ", " + str(count) + ") on length " + str(m.size()) + " returned " + str(r));
+			f_refused = true;
+			check("del_idx(refused)");
+			return;
+		}
+		if (r != 0)
+			ctx.fail("retval", "array_list_del_idx(" + str(idx) + ", " + str(count) + ") returned " + str(r));
+		for (size_t i = idx; i < idx + count; i++)
+			released(m[i]);
+		m.erase(m.begin() + (long)idx, m.begin() + (long)(idx + count));
+		if (count)
+			f_del = true;
+		check("del_idx");
+	}
+	void shrink(size_t extra)
+	{
+		int r = array_list_shrink(al, extra);
+		log("shrink " + str(extra));
+		if (extra >= SIZE_MAX / 16)
+		{
+			if (r != -1)
+				ctx.fail("not-refused", "array_list_shrink(" + str(extra) + ") returned " + str(r));
+			f_refused = true;
+		}
+		else if (r != 0)
+			ctx.fail("retval", "array_list_shrink(" + str(extra) + ") returned " + str(r));
+		else if (al->size < m.size() + extra)
+			ctx.fail("shrink", "capacity " + str(al->size) + " after shrink(" + str(extra) + ") at length " + str(m.size()));
+		check("shrink");
+	}
+	void sort()
+	{
+		array_list_sort(al, al_cmp);
+		log("sort");
+		std::sort(m.begin(), m.end());
+		sorted = true;
+		f_sorted = true;
+		check("sort");
+	}
+	void search(long key)
+	{
+		const void *k = tok(key);
+		void **hit = (void **)array_list_bsearch(&k, al, al_cmp);
+		log("bsearch " + str(key));
+		bool present = std::binary_search(m.begin(), m.end(), key);
+		if (present != (hit != nullptr))
+			ctx.fail("bsearch", "array_list_bsearch(" + str(key) + ") " + (hit ? "found" : "did not find") + " it, the model says " + (present ? "present" : "absent"));
+		if (hit && (hit < al->array || hit >= al->array + al->length || *hit != k))
+			ctx.fail("bsearch", "array_list_bsearch returned a pointer that is not a matching slot of the array");
+	}
+	void finish()
+	{
+		for (long id : m)
+			released(id);
+		array_list_free(al);
+		al = nullptr;
+		m.clear();
+		check_freed_only();
+	}
+	void check_freed_only()
+	{
+		if (g_al_freed != want_freed)
+			ctx.fail("free-callback", "after array_list_free the free function calls differ from the model (" + str(g_al_freed.size()) + " tokens freed, model " + str(want_freed.size()) + ")");
+		for (auto &kv : g_al_freed)
+			if (kv.second != 1)
+				ctx.fail("free-callback", "token " + str(kv.first) + " freed " + str(kv.second) + " times");
+	}
+};
 } // namespace
+
+static void run_al(Choices &c, Ctx &ctx)
+{
+	bool dflt = c.coin(15);
+	int cap0 = c.coin(30) ? 0 : (int)c.range(0, 40);
+	AL a(ctx, cap0, dflt);
+	size_t nops = 1 + c.len(40);
+	auto idx_near = [&]() -> size_t {
+		size_t len = a.m.size();
+		switch (c.pick({4, 3, 3, 2, 1}))
+		{
+		case 0: return len ? c.pickn(len) : 0;
+		case 1: return len;
+		case 2: return len + (size_t)c.range(1, 6);
+		case 3: return len ? len - 1 : 0;
+		default: return a.al->size + (size_t)c.range(0, 3);
+		}
+	};
+	for (size_t i = 0; i < nops; i++)
+	{
+		SpanGuard g(c);
+		switch (c.pick({20, 18, 14, 14, 6, 5, 6, 5}))
+		{
+		case 0: a.add(a.fresh(c)); break;
+		case 1: a.put(idx_near(), a.fresh(c)); break;
+		case 2: a.insert(idx_near(), a.fresh(c)); break;
+		case 3: {
+			size_t len = a.m.size(), idx = idx_near(), count;
+			switch (c.pick({4, 3, 2, 2, 1}))
+			{
+			case 0: count = 1; break;
+			case 1: count = len > idx ? len - idx : 0; break;
+			case 2: count = (len > idx ? len - idx : 0) + 1; break;
+			case 3: count = (size_t)c.range(0, 5); break;
+			default: count = SIZE_MAX - (size_t)c.range(0, 3); break;
+			}
+			if (c.coin(5))
+				idx = huge_idx(c);
+			a.del(idx, count);
+			break;
+		}
+		case 4: a.shrink(c.coin(8) ? SIZE_MAX / 8 - (size_t)c.range(0, 40) : (size_t)c.range(0, 5)); break;
+		case 5: a.sort(); break;
+		case 6:
+			if (a.sorted)
+				a.search((long)c.range(0, (uint64_t)a.next_id + 1));
+			else
+				a.sort();
+			break;
+		default: {
+			size_t hi = huge_idx(c);
+			if (c.coin(50))
+				a.put(hi, a.next_id++);
+			else
+				a.insert(hi, a.next_id++);
+			// the refused token stays with the caller: it is simply dropped here (never handed to the list)
+			break;
+		}
+		}
+	}
+	a.finish();
+	if (a.f_gap)
+		ctx.label("al_null_gap");
+	if (a.f_refused)
+		ctx.label("al_refused");
+	if (a.f_overwrite)
+		ctx.label("al_overwrite");
+	if (a.f_del)
+		ctx.label("al_del_range");
+	if (a.f_sorted)
+		ctx.label("al_sort");
+	if (a.f_grew)
+		ctx.label("al_grew");
+	if ((a.f_gap || a.f_overwrite || a.f_del) && a.f_grew)
+		ctx.nontrivial(a.h);
+	ctx.note(a.trace);
+}
 
 void run_case(Choices &c, Ctx &ctx)
 {
 	LeakScope leak;
+	if (ctx.mode == "al")
+	{
+		run_al(c, ctx);
+		leak.check(ctx);
+		return;
+	}
 	if (ctx.mode == "small")
 	{
 		uint64_t idx = c.bits(8);
